@@ -43,8 +43,17 @@ def spec_scan(ops, impl):
         rep = impl[i]
         if f[0] == "case":
             spec = {}
-        elif f[0] == "act" and f[1] == "w":
+        elif f[0] == "act" and f[1] == "w" and spec is not None:
             S.apply_items(spec, f[2])
+        elif f[0] == "plant" and f[2] == "trunc":
+            spec = None      # the file was cut by hand: the next load defines the expected state
+        elif f[0] == "act" and f[1] == "load" and spec is None:
+            got = rep.split(" ")[1] if " " in rep else "-"
+            spec = {}
+            if got not in ("-", "?"):
+                for kv in got.split(","):
+                    k, v = kv.split("=")
+                    spec[int(k)] = v
         elif f[0] == "act" and f[1] == "load":
             got = rep.split(" ")[1] if " " in rep else "?"
             if got != S.fmt_state(spec):
